@@ -231,6 +231,20 @@ func (h *hz) judge(in []byte, pver uint32, net wire.BitcoinNet, enc wire.Message
 			h.maxRatioWhat = fmt.Sprintf("%s %s/%s pver %d: input %d bytes (announced %d), allocated %d, bound %d, %s", frameID, h.class, sub, pver, len(in), e.hdrLen, o.alloc, bound, outcomeTag)
 		}
 		if o.alloc > bound {
+			// Decoding is a function of the input and so is what it allocates; the measurement (TotalAlloc of the process) also
+			// sees whatever another goroutine allocated in between. Measure the same input again, twice: noise does not repeat.
+			for k := 0; k < 2 && o.alloc > bound; k++ {
+				o2, hung2, _ := h.dec.decode(job{in: in, pver: pver, net: net, enc: enc})
+				if hung2 || o2.panicked != nil {
+					break
+				}
+				h.count("allocations_measured_again", 1)
+				if o2.alloc < o.alloc {
+					o.alloc = o2.alloc
+				}
+			}
+		}
+		if o.alloc > bound {
 			d := detail()
 			d["allocated_bytes"] = o.alloc
 			d["bound_bytes"] = bound
